@@ -277,6 +277,39 @@ theorem safeguarding_irrelevant (axes : List Axis) (fs : List (List Rat → Rat)
     runWith_ideal goodSel_plain hwf hfs qs (ATable.empty (hs axes) (lows axes) fs.length) [] ⟨rfl, rfl⟩
       (empty_inv _ _ fs) hq]
 
+/-! ### hypotheses as decidable input conditions; the error branch; assignment without indices -/
+
+/-- The hypotheses of the theorems above are decidable conditions on the INPUT (grid and queries); the driver
+    evaluates `wfB`, `Query.inBoxB`, `Query.axisOkB` on every generated case and the harness compares them
+    with its own evaluation. -/
+theorem hypotheses_decidable (axes : List Axis) (q : Query) :
+    (wfB axes = true ↔ WF axes) ∧ (q.inBoxB axes = true ↔ q.inBox axes) ∧
+    (q.axisOkB axes.length = true ↔ q.axisOk axes.length) :=
+  ⟨wfB_iff axes, inBoxB_iff axes q, axisOkB_iff axes.length q⟩
+
+/-- The whole property for the standard table with Boolean hypotheses only: on a well-formed grid, every
+    in-box query on multilinear components is answered exactly. -/
+theorem standard_exact_decidable (axes : List Axis) (ts : List ML) (q : Query)
+    (h1 : wfB axes = true) (h2 : q.inBoxB axes = true) (h3 : q.axisOkB axes.length = true) :
+    (mkTable axes (ts.map ML.eval)).answer q = exactAnswer ts q :=
+  std_answer_multilinear axes ts q ((wfB_iff axes).mp h1) ((inBoxB_iff axes q).mp h2)
+    ((axisOkB_iff axes.length q).mp h3)
+
+/-- **Out-of-box queries raise `ValueError`**: if any point of the batch has a coordinate outside
+    `[low, high]`, `interpolate` and `gradient` of ANY standard table answer `ValueError` (before any other
+    check). -/
+theorem outside_raises (T : Table) (q : Query) (x : List Rat) (hx : x ∈ q.points)
+    (hout : inBox T.axes x = false) : T.answer q = .error .valueError :=
+  outside_error T q x hx hout
+
+/-- **`assign_values` without indices** recovers the indices from the coordinates by floor division; for
+    coordinates that are grid nodes (as returned by `quadrature_points_from_coordinates`) this is the same
+    assignment as with the indices passed, so `assign_values_eq_fill` and `assigned_eq_standard` apply. -/
+theorem assign_without_indices (T : ATable) (hg : Geo T) (vals : List (List Rat)) (inds : List C46.Coord)
+    (hl : ∀ i ∈ inds, i.length = T.h.length) :
+    assignNoIdx T vals (inds.map (coordOf T.basePt T.h)) = assign T vals (inds.map (coordOf T.basePt T.h)) inds :=
+  assignNoIdx_eq T hg vals inds hl
+
 /-! ### non-vacuity: concrete grids, functions and points (the queries of finding F7 among them) -/
 
 /-- 3 × 3 table on `[0,1]²` -/
@@ -343,5 +376,18 @@ example : safeBases Tq [[1/2, 2047/1024]] = [[0, 1], [0, 2]] := by decide +kerne
 example : safeBases Tq [[2047/1024, 2047/1024]] = [[1, 1], [1, 2], [2, 1], [2, 2]] := by decide +kernel
 example : Tq.run [t235.eval] [.interp [[1/2, 2047/1024]]] = Tq.runWith plainBases [t235.eval] [.interp [[1/2, 2047/1024]]] := by
   decide +kernel
+
+/-- decidable hypotheses evaluate on concrete data; an outside point gives ValueError; npt = 1 is rejected by `wfB` -/
+example : wfB ax2 = true ∧ (Query.grad [[1, 3/10]] 1).inBoxB ax2 = true ∧ (Query.grad [[1, 3/10]] 1).axisOkB 2 = true := by
+  decide +kernel
+example : wfB [⟨0, 1, 1⟩] = false ∧ wfB [⟨1, 1, 3⟩] = false := by decide +kernel
+example : (mkTable ax2 [t235.eval]).answer (.grad [[1, 3/10]] 1) = exactAnswer [t235] (.grad [[1, 3/10]] 1) :=
+  standard_exact_decidable ax2 [t235] _ (by decide +kernel) (by decide +kernel) (by decide +kernel)
+example : (mkTable ax2 [t235.eval]).answer (.grad [[1/2, 1/2], [1/2, 9/8]] 0) = .error .valueError :=
+  outside_raises _ _ [1/2, 9/8] (by simp [Query.points]) (by decide +kernel)
+example : assignNoIdx Tq [[5, 7]] ([[1, 2], [0, 3]].map (coordOf Tq.basePt Tq.h)) =
+    assign Tq [[5, 7]] ([[1, 2], [0, 3]].map (coordOf Tq.basePt Tq.h)) [[1, 2], [0, 3]] :=
+  assign_without_indices Tq ⟨rfl, by decide +kernel⟩ _ _ (by decide +kernel)
+example : (assignNoIdx Tq [[5, 7]] [[1, 2], [0, 3]]).pt = [[0, 3], [1, 2]] := by decide +kernel
 
 end PorepyVerif.C41
